@@ -7,6 +7,8 @@ validity theorems about these same constants at `K = ℂ`, with the LAPACK routi
 Vectors are `Nat → K`, matrices `Nat → Nat → K` (row, column), sizes are explicit.
 -/
 import NumqiModel.Scalar
+import NumqiModel.FinGroup
+import NumqiModel.Gellmann
 
 namespace Numqi.RandNorm
 open Numqi (Conj conj)
@@ -102,6 +104,123 @@ def f2Result (notZero notOne : Bool) : List (List Nat) → Option (List Nat × N
     if f2Rejected notZero notOne x then (f2Result notZero notOne rest).map fun (r, k) => (r, k + 1)
     else some (x, 1)
 
+/-! ### round 6: generators composed from the above (`rand_bipartite_state`, `rand_separable_dm`, `rand_orthonormal_matrix_basis`,
+`rand_channel_matrix_space`, `rand_quantum_channel_matrix_subspace`, `rand_ABk_density_matrix`) -/
+
+/-- `ret[:,np.newaxis] * ret.conj()` (`rand_bipartite_state(return_dm=True)`, `_internal.py:234`) -/
+def pureDm (v : Nat → K) (i j : Nat) : K := v i * conj (v j)
+
+/-- `rand_bipartite_state(k)` (`_internal.py:228-232`): `tmp2 /= norm(tmp2); ((tmp0*tmp2) @ tmp1.T).reshape(-1)` with `tmp0 = Q0[:,:k]`,
+`tmp1 = Q1[:,:k]` the leading columns of the two `qr` factors; flat index `x = a*dB + b` -/
+def bipartiteOut (dB k : Nat) (Q0 Q1 : Nat → Nat → K) (c : Nat → K) (x : Nat) : K :=
+  sumR k fun s => Q0 (x / dB) s * normalize k c s * Q1 (x % dB) s
+
+/-- `np.kron(A, B)` of two matrices, flat index `x = a*dB + b` -/
+def kron (dB : Nat) (A B : Nat → Nat → K) (x y : Nat) : K := A (x / dB) (y / dB) * B (x % dB) (y % dB)
+
+/-- `np.kron(u, v)` of two vectors -/
+def kronVec (dB : Nat) (u v : Nat → K) (x : Nat) : K := u (x / dB) * v (x % dB)
+
+/-- `probability /= probability.sum()` (`_internal.py:259`) -/
+def probNorm (k : Nat) (p : Nat → K) (i : Nat) : K := p i / sumR k p
+
+/-- `rand_separable_dm(pure_term=False)` (`_internal.py:266-269`): `Σ_i p_i kron(A_i, B_i)` -/
+def sepMix (k dB : Nat) (p : Nat → K) (A B : Nat → Nat → Nat → K) (x y : Nat) : K :=
+  sumR k fun i => probNorm k p i * kron dB (A i) (B i) x y
+
+/-- `rand_separable_dm(pure_term=True)` (`_internal.py:261-265`): `tmp = kron(u_i, v_i); ret + p_i * tmp[:,None] * tmp.conj()` -/
+def sepMixPure (k dB : Nat) (p : Nat → K) (u v : Nat → Nat → K) (x y : Nat) : K :=
+  sumR k fun i => probNorm k p i * kronVec dB (u i) (v i) x * conj (kronVec dB (u i) (v i) y)
+
+/-- `y[:,:,np.newaxis]*y[:,np.newaxis].conj()` (`rand_orthonormal_matrix_basis`, `_internal.py:417`): the projector on row `a` of `y` -/
+def onbProj (U : Nat → Nat → K) (a c j : Nat) : K := U a c * conj (U a j)
+
+/-- `povm_basis[i,i,i] = 1` (`_internal.py:409-411`) -/
+def compBasis (a c j : Nat) : K := if a = c ∧ a = j then 1 else 0
+
+/-- one step of the qudit loop (`_internal.py:421-422`): `einsum(tmp2,[0,1,2,3], tmp1[q],[0,4,5,6], [0,1,4,2,5,3,6])` reshaped — the
+Kronecker product of the two projector families, label / row / column `a*d + a'` -/
+def kron3 (d : Nat) (P Q : Nat → Nat → Nat → K) (a c j : Nat) : K := P (a / d) (c / d) (j / d) * Q (a % d) (c % d) (j % d)
+
+/-- the `o`-th basis of one qudit: the computational basis for `o = 0`, the rows of `U (o-1)` otherwise (`np.stack([povm_basis]+x)`) -/
+def onbBasis (U : Nat → Nat → Nat → K) (o : Nat) : Nat → Nat → Nat → K :=
+  if o = 0 then compBasis else onbProj (U (o - 1))
+
+/-- `tmp2` after the qudit loop: `U q o` is the `o`-th captured unitary of qudit `q` -/
+def onbOut (d nq : Nat) (U : Nat → Nat → Nat → Nat → K) (o : Nat) : Nat → Nat → Nat → K :=
+  ((List.range (nq - 1)).map fun q => onbBasis (U (q + 1)) o).foldl (kron3 d) (onbBasis (U 0) o)
+
+/-- the returned stack (`_internal.py:423-425`): entry `t` is projector `t % D` of basis `t / D` (`D = d^nq`), after the identity if `with_I` -/
+def onbFlat (d nq : Nat) (withI : Bool) (U : Nat → Nat → Nat → Nat → K) (t c j : Nat) : K :=
+  if withI then (if t = 0 then (if c = j then 1 else 0) else onbOut d nq U ((t - 1) / d ^ nq) ((t - 1) % d ^ nq) c j)
+  else onbOut d nq U (t / d ^ nq) (t % d ^ nq) c j
+
+/-- `tmp0 + tmp0.T.conj()` (`rand_channel_matrix_space`, `_internal.py:309`; `rand_hermitian_matrix(eig=None)`, `:296`) -/
+def hermSym (Z : Nat → Nat → K) (i j : Nat) : K := Z i j + conj (Z j i)
+
+/-- `rand_channel_matrix_space` (`_internal.py:306-311`): the identity followed by `num_term-1` symmetrised draws -/
+def chanSpace (Z : Nat → Nat → Nat → K) (t i j : Nat) : K :=
+  if t = 0 then (if i = j then 1 else 0) else hermSym (Z (t - 1)) i j
+
+section gellmann
+variable [Sub K] [Neg K] [NatCast K]
+open Numqi.Gellmann (Scalars synthesis)
+
+/-- coefficient placement of `rand_quantum_channel_matrix_subspace`, real symmetric block (`_internal.py:330-332`):
+`tmp1[:,:N1] = t[:N1]; tmp1[:,2*N1:-1] = t[N1:]` (`N1 = d(d-1)/2`; symmetric off-diagonal and diagonal Gell-Mann slots) -/
+def qcmsSymCoeff (d : Nat) (t : Nat → K) (p : Nat) : K :=
+  let N1 := d * (d - 1) / 2
+  if p < N1 then t p else if 2 * N1 ≤ p ∧ p + 1 < d * d then t (p - N1) else 0
+
+/-- antisymmetric block (`:335-336`): `tmp0[:,N1:2*N1] = t` -/
+def qcmsAntiCoeff (d : Nat) (t : Nat → K) (p : Nat) : K :=
+  let N1 := d * (d - 1) / 2
+  if N1 ≤ p ∧ p < 2 * N1 then t (p - N1) else 0
+
+/-- complex Hermitian case (`:341-342`): `concatenate([t, 0])` -/
+def qcmsHermCoeff (d : Nat) (t : Nat → K) (p : Nat) : K := if p + 1 < d * d then t p else 0
+
+/-- `.imag` -/
+def imPart (S : Scalars K) (x : K) : K := (x - conj x) * (S.half * -S.I)
+
+/-- `gellmann_basis_to_matrix(tmp1).real` -/
+def qcmsSym (S : Scalars K) (d : Nat) (t : Nat → K) : Gellmann.Mat d K := fun r c => Gellmann.re S (synthesis S d (qcmsSymCoeff d t) r c)
+/-- `gellmann_basis_to_matrix(tmp0).imag` -/
+def qcmsAnti (S : Scalars K) (d : Nat) (t : Nat → K) : Gellmann.Mat d K := fun r c => imPart S (synthesis S d (qcmsAntiCoeff d t) r c)
+/-- `gellmann_basis_to_matrix(concatenate([t,0]))` -/
+def qcmsHerm (S : Scalars K) (d : Nat) (t : Nat → K) : Gellmann.Mat d K := synthesis S d (qcmsHermCoeff d t)
+
+end gellmann
+
+section abk
+variable [NatCast K]
+
+/-- `math.factorial` -/
+def fact : Nat → Nat
+  | 0 => 1
+  | n + 1 => (n + 1) * fact n
+
+/-- the `k` base-`b` digits of `x`, most significant first (`reshape([dB]*k)`) -/
+def digits (b k x : Nat) : List Nat := (List.range k).map fun m => x / b ^ (k - 1 - m) % b
+
+def undigits (b : Nat) (l : List Nat) : Nat := l.foldl (fun acc t => acc * b + t) 0
+
+/-- `np.transpose(np0, [0]+[1+π[m]]+…)` reads the source at the multi-index `j` with `j[π[m]] = i[m]`, i.e. `j[t] = i[π⁻¹ t]` -/
+def scatter (π bs : List Nat) : List Nat := (List.range π.length).map fun t => bs.getD (π.idxOf t) 0
+
+/-- flat index of the source entry for the term `π` of `rand_ABk_density_matrix` (`_internal.py:358-360`); `x = a*dB^k + (digits)` -/
+def permIdx (dB k : Nat) (π : List Nat) (x : Nat) : Nat :=
+  x / dB ^ k * dB ^ k + undigits dB (scatter π (digits dB k (x % dB ^ k)))
+
+/-- `rand_ABk_density_matrix` (`_internal.py:351-361`): `M = G Gᴴ`, `np0 = M/(tr M · k!)`, `ret = Σ_π transpose(np0, π)`
+(`itertools.permutations(range(k))` = `FinGroup.perms k`; the `kext = 1` branch is the same formula) -/
+def abkSym (dA dB k : Nat) (G : Nat → Nat → K) (x y : Nat) : K :=
+  let N := dA * dB ^ k
+  ((FinGroup.perms k).map fun π =>
+    gram N G (permIdx dB k π x) (permIdx dB k π y) / (traceN N (gram N G) * ((fact k : Nat) : K))).sum
+
+end abk
+
 /-! ### executable carrier: complex binary64 -/
 
 structure CFl where
@@ -118,11 +237,23 @@ instance : Div CFl := ⟨fun a b =>
   let d := b.re * b.re + b.im * b.im
   ⟨(a.re * b.re + a.im * b.im) / d, (a.im * b.re - a.re * b.im) / d⟩⟩
 instance : Conj CFl := ⟨fun a => ⟨a.re, -a.im⟩⟩
+instance : Sub CFl := ⟨fun a b => ⟨a.re - b.re, a.im - b.im⟩⟩
+instance : Neg CFl := ⟨fun a => ⟨-a.re, -a.im⟩⟩
+instance : NatCast CFl := ⟨fun n => ⟨n.toFloat, 0⟩⟩
 instance : RandOps CFl where
   rsqrt a := ⟨Float.sqrt a.re, 0⟩
   invSqrt0 a := ⟨1 / Float.sqrt (if a.re < 0 then 0 else a.re), 0⟩
   rootN a n := ⟨Float.pow a.re (1 / n.toFloat), 0⟩
   sgn1 a := ⟨if a.re < 0 then -1 else 1, 0⟩
+/-- the scalars of `gellmann.py` in binary64 (only `half`, `I`, `cD`, `cI` are used by `synthesis`) -/
+def gmScalars (d : Nat) : Gellmann.Scalars CFl where
+  half := ⟨0.5, 0⟩
+  I := ⟨0, 1⟩
+  cD k := ⟨Float.sqrt (2 / (k.toFloat * (k.toFloat + 1))), 0⟩
+  cI := ⟨Float.sqrt (2 / d.toFloat), 0⟩
+  aD _ := 0
+  aI := 0
+  invD := 0
 end CFl
 
 end Numqi.RandNorm
